@@ -107,6 +107,9 @@ func execOp(c *Ctx, line string) (out string) {
 		}
 		return strings.Join([]string{hx(mt), hx([]byte(d.String())), hx([]byte(fmt.Sprintf("%s", d))), hx([]byte(fmt.Sprintf("%e", d))),
 			hx([]byte(fmt.Sprintf("%b", d))), hx([]byte(fmt.Sprintf("%v", d)))}, " ")
+	case "date.verb": // fmt.Sprintf(<format>, date): any verb, flag, width and precision fmt can deliver to Date.Format
+		d := date.New(atoi(f[1]), time.Month(atoi(f[2])), atoi(f[3]))
+		return hx([]byte(fmt.Sprintf(string(mustHex(f[4])), d)))
 	case "date.parse":
 		old := date.MaxInputLength
 		date.MaxInputLength = atoi(f[1])
@@ -135,15 +138,21 @@ func execOp(c *Ctx, line string) (out string) {
 			}
 		}
 		if r == 0 && c.Owns("C09.entry") { // every input path: UnmarshalText is the parser under the default rule
-			var u date.Date
-			eu := u.UnmarshalText(append([]byte(nil), in...))
-			typed := true
-			if eu != nil {
-				typed, _ = datePE(eu)
-			}
-			if ou := dateOutcome(u, eu); ou != o1 || !typed {
-				c.Fail("C09.entry", line, "UnmarshalText: %s (typed %v), DefaultParser: %s", ou, typed, o1)
-				return "MISMATCH-entry " + o1 + " / " + ou
+			// … decoded onto a fresh variable and onto variables that already hold another date (one far away, one in the same
+			// month as the parser's result): an accepted text sets the receiver to exactly the parsed date
+			py, pm, pd := d1.Date()
+			sn := dateSentinels(py, int(pm), pd)
+			for _, u := range []date.Date{{}, sn[0], sn[1]} {
+				u0 := u
+				eu := u.UnmarshalText(append([]byte(nil), in...))
+				typed := true
+				if eu != nil {
+					typed, _ = datePE(eu)
+				}
+				if ou := dateOutcome(u, eu); ou != o1 || !typed {
+					c.Fail("C09.entry", line, "UnmarshalText onto %s: %s (typed %v), DefaultParser: %s", dateYMD(u0), ou, typed, o1)
+					return "MISMATCH-entry " + o1 + " / " + ou
+				}
 			}
 		}
 		return o1
@@ -184,11 +193,16 @@ func execOp(c *Ctx, line string) (out string) {
 		t := time.Unix(atoi64(f[1]), atoi64(f[2])).In(time.FixedZone("z", atoi(f[3])))
 		d := date.FromTime(t)
 		if c.Owns("C07.fromtime.entry") { // every conversion entry point: the pointer method and Scan(time.Time)
-			var dp, ds date.Date
-			dp.FromTime(t)
-			if err := ds.Scan(t); err != nil || dateYMD(dp) != dateYMD(d) || dateYMD(ds) != dateYMD(d) {
-				c.Fail("C07.fromtime.entry", line, "FromTime %s, (*Date).FromTime %s, Scan %s (%v)", dateYMD(d), dateYMD(dp), dateYMD(ds), err)
-				return "MISMATCH-entry " + dateYMD(d) + " / " + dateYMD(dp) + " / " + dateYMD(ds)
+			// on a fresh variable and on variables that already hold another date
+			fy, fm, fd := d.Date()
+			sn := dateSentinels(fy, int(fm), fd)
+			for _, r := range []date.Date{{}, sn[0], sn[1]} {
+				dp, ds := r, r
+				dp.FromTime(t)
+				if err := ds.Scan(t); err != nil || dateYMD(dp) != dateYMD(d) || dateYMD(ds) != dateYMD(d) {
+					c.Fail("C07.fromtime.entry", line, "onto %s: FromTime %s, (*Date).FromTime %s, Scan %s (%v)", dateYMD(r), dateYMD(d), dateYMD(dp), dateYMD(ds), err)
+					return "MISMATCH-entry " + dateYMD(d) + " / " + dateYMD(dp) + " / " + dateYMD(ds)
+				}
 			}
 		}
 		return dateYMD(d)
@@ -338,15 +352,19 @@ func execOp(c *Ctx, line string) (out string) {
 			}
 		}
 		if f[1] == "Default" && c.Owns("C03.entry") {
-			var u sem.Ver
-			eu := u.UnmarshalText(append([]byte(nil), in...))
-			typed := true
-			if eu != nil {
-				typed, _ = semPE(eu)
-			}
-			if ou := semOutcome(u, eu); ou != o1 || !typed {
-				c.Fail("C03.entry", line, "UnmarshalText: %s (typed %v), DefaultParser: %s", ou, typed, o1)
-				return "MISMATCH-entry " + o1 + " / " + ou
+			// onto a fresh variable and onto variables that already hold another version (0.0.0 is the zero value of Ver:
+			// "did not assign" must not pass for "assigned 0.0.0"; a merge of old and new fields must show)
+			for _, u := range []sem.Ver{{}, {Major: 9, Minor: 8, Patch: 7, PreRelease: "old.1", Build: "old"}, {Major: v1.Major + 1, Minor: v1.Minor, Patch: v1.Patch, PreRelease: "x", Build: v1.Build}} {
+				u0 := u
+				eu := u.UnmarshalText(append([]byte(nil), in...))
+				typed := true
+				if eu != nil {
+					typed, _ = semPE(eu)
+				}
+				if ou := semOutcome(u, eu); ou != o1 || !typed {
+					c.Fail("C03.entry", line, "UnmarshalText onto %v: %s (typed %v), DefaultParser: %s", u0, ou, typed, o1)
+					return "MISMATCH-entry " + o1 + " / " + ou
+				}
 			}
 			// the same onto a variable that already holds a version: a successful call yields exactly the decoded value
 			if e1 == nil && c.Owns("C03.overwrite") {
